@@ -572,6 +572,48 @@ func run(c *vf.Ctx) {
 				"seq": int(p.seq), "ok": ok && !panicked, "dup": dup && !panicked, "same": same, "clear": p.mt.IsEncrypted() && clearOnWire(p.wire, p.payload), "panic": panicked})
 		}
 	}
+	// a burst: one router seals signed frames for another as fast as it can (tens of thousands: the time stamps, one
+	// millisecond apart at least, run more than a minute ahead of the clock); the first, some in between and the last
+	// ones are delivered, untouched and in order
+	{
+		t = newTrio(c.Seed + 77)
+		events = append(events, map[string]any{"ev": "reset", "h": "burst"})
+		traces++
+		type kept struct {
+			wire, payload []byte
+			seq           uint64
+		}
+		var keep []kept
+		var base uint64
+		n, ahead := 0, time.Duration(0)
+		for ; n < 200000 && ahead < 62*time.Second; n++ {
+			payload := t.randBytes(1 + t.rng.Intn(40))
+			wire, seq := t.sealed(frame.RouterPing, payload, nil, nil, margins[0])
+			if n == 0 {
+				base = seq - 1
+			}
+			ahead = time.Until(time.UnixMilli(int64(seq)))
+			if n < 3 || n%10000 == 0 || ahead > 59*time.Second {
+				keep = append(keep, kept{wire, payload, seq - base})
+			}
+		}
+		for i := 0; i < 5; i++ {
+			payload := t.randBytes(1 + t.rng.Intn(40))
+			wire, seq := t.sealed(frame.RouterPing, payload, nil, nil, margins[0])
+			keep = append(keep, kept{wire, payload, seq - base})
+		}
+		if len(keep) > 60 {
+			keep = append(keep[:30], keep[len(keep)-30:]...)
+		}
+		for _, k := range keep {
+			ok, same, dup, panicked := t.unsealDup(k.wire, "correct", k.payload)
+			c.Eval(1)
+			events = append(events, map[string]any{"ev": "unseal", "h": "burst", "cls": "signed", "mut": []string{}, "rel": "correct",
+				"seq": int(k.seq), "ok": ok && !panicked, "dup": dup && !panicked, "same": same, "clear": false, "panic": panicked})
+		}
+		c.Extra("burst", map[string]any{"sealed": n + 5, "stamps_ahead_of_the_clock_s": ahead.Seconds(), "delivered": len(keep)})
+		c.Logf("T: burst of %d signed frames, stamps %.1f s ahead of the clock, %d delivered", n+5, ahead.Seconds(), len(keep))
+	}
 	rejectAt, inv, tres, err := c.TraceCheck("FrameSeal_Trace", "FrameSeal_Trace.cfg", events, vf.TLCOpts{Timeout: 20 * time.Minute})
 	if err != nil {
 		c.Fatal("T: %v", err)
